@@ -265,6 +265,13 @@ func ruleGroupDelta(rule string) func(*Ctx) {
 		}
 		// GetLowestPathInfo: the area sentinel is per path
 		lp := c.fn("(Group).GetLowestPathInfo")
+		if len(naturalLoops(lp)) == 0 { // the scan may have been moved into a function of the paths alone
+			for _, g := range freshRegion(c, lp)[1:] {
+				if len(naturalLoops(g)) == 2 {
+					lp = g
+				}
+			}
+		}
 		bad = lowestSentinel(lp)
 		c.check(bad == "", rule, rule+":GetLowestPathInfo:per-path-area", lp.Pos(), "(Group).GetLowestPathInfo",
 			"the area sign is taken from the path that owns the lowest point (sentinel re-armed for every path)", bad,
@@ -453,30 +460,47 @@ func ruleOffsetUnion(rule string) func(*Ctx) {
 			bad = ""
 			t := b.Succs[0]
 			appends, rets := 0, 0
-			for _, bb := range fEntry.Blocks {
-				if !t.Dominates(bb) {
-					continue
-				}
-				for _, in := range bb.Instrs {
-					switch x := in.(type) {
-					case ssa.CallInstruction:
-						n := calleeName(c, x)
-						if strings.HasPrefix(n, "(ClipperOffset).") || n == "NewClipper64" || strings.HasPrefix(n, "(clipper64)") {
-							bad = "the |delta| < 0.5 path calls " + n
-						}
-						if n == "builtin.append" {
-							appends++
-							for _, el := range appendedValues(x.Common().Args[1]) {
-								if !loadedFromField(el, "inPaths") {
-									bad = "the |delta| < 0.5 path appends something other than the group's stripped input paths"
+			var scan func(blocks []*ssa.BasicBlock, depth int)
+			scan = func(blocks []*ssa.BasicBlock, depth int) {
+				for _, bb := range blocks {
+					for _, in := range bb.Instrs {
+						switch x := in.(type) {
+						case ssa.CallInstruction:
+							n := calleeName(c, x)
+							if h := x.Common().StaticCallee(); h != nil && depth < 2 && c.freshFunc(h) {
+								scan(h.Blocks, depth+1) // the copy loop moved into a helper the reference record does not know
+								continue
+							}
+							if strings.HasPrefix(n, "(ClipperOffset).") || n == "NewClipper64" || strings.HasPrefix(n, "(clipper64)") {
+								bad = "the |delta| < 0.5 path calls " + n
+							}
+							if n == "builtin.append" {
+								appends++
+								els := appendedValues(x.Common().Args[1])
+								if len(els) == 0 && loadedFromField(x.Common().Args[1], "inPaths") {
+									continue // append(sol, group.inPaths...)
+								}
+								for _, el := range els {
+									if !loadedFromField(el, "inPaths") {
+										bad = "the |delta| < 0.5 path appends something other than the group's stripped input paths"
+									}
 								}
 							}
+						case *ssa.Return:
+							if depth == 0 {
+								rets++
+							}
 						}
-					case *ssa.Return:
-						rets++
 					}
 				}
 			}
+			var dom []*ssa.BasicBlock
+			for _, bb := range fEntry.Blocks {
+				if t.Dominates(bb) {
+					dom = append(dom, bb)
+				}
+			}
+			scan(dom, 0)
 			if bad == "" && (appends != 1 || rets != 1) {
 				bad = fmt.Sprintf("the |delta| < 0.5 path has %d appends and %d returns", appends, rets)
 			}
@@ -1693,6 +1717,9 @@ func ruleHorzOpenEnd(rule string) func(*Ctx) {
 func ruleSplitRelabel(rule string) func(*Ctx) {
 	return func(c *Ctx) {
 		f := c.fn("(clipperBase).processHorzJoins")
+		if h := fnWithCallsTo(c, f, "(clipperBase).newOutRec", 0); h != nil {
+			f = h // the same-ring arm may have been moved into a helper
+		}
 		var newRec *ssa.Call
 		for _, ci := range callsTo(c, f, "(clipperBase).newOutRec") {
 			newRec = ci.(*ssa.Call)
